@@ -103,6 +103,13 @@ def reruns(chk: Check) -> None:
                 extra.append(dict(b, variant=f"edit:{cls}"))
             extra.append(dict(b, variant="specchange", spec=spec_new, spec_old=spec_old))
     beh += extra
+    # the same re-runs with the process's temporary directory somewhere unusual (the comparison tree is generated there)
+    for b in list(beh):
+        sc = b["sc"]
+        if sc["cwd"] == "elsewhere" and not sc["pp"] and not b.get("spec") and (thorough or sc["core"] == "embedded"):
+            beh.append(dict(b, tmpdir="hidden"))
+            if thorough:
+                beh.append(dict(b, tmpdir="spaced"))
     if not thorough:
         beh = [b for b in beh if b["sc"]["cwd"] == "elsewhere" or b["sc"]["pp"]]
     # "re-running on unchanged input is a no-op" for EVERY document of the catalogue (not only the one the tree variants use): what the
